@@ -314,6 +314,29 @@ pub fn state_metadata(_cex: &Value) -> Result<String, String> {
         }
       }
     }
+    // every presence combination of the two timestamps survives pack / unpack as it is (nothing is filled in)
+    {
+      use identity_core::common::Timestamp;
+      let t1 = Timestamp::from_unix(1_600_000_000).unwrap();
+      let t2 = Timestamp::from_unix(1_700_000_000).unwrap();
+      for created in [None, Some(t1)] {
+        for updated in [None, Some(t1), Some(t2)] {
+          let mut dm = doc.clone();
+          dm.metadata.created = created;
+          dm.metadata.updated = updated;
+          for tgt in [&did_self, &target] {
+            match dm.clone().pack().and_then(|p| StateMetadataDocument::unpack(&p)).and_then(|x| x.into_iota_document(tgt)) {
+              Ok(r) => {
+                if r.metadata.created != created || r.metadata.updated != updated {
+                  log.push(format!("[metadata] created {created:?} / updated {updated:?} come back as {:?} / {:?}", r.metadata.created, r.metadata.updated));
+                }
+              }
+              Err(e) => log.push(format!("[metadata] document with created {created:?} / updated {updated:?} does not round-trip: {e}")),
+            }
+          }
+        }
+      }
+    }
     // metadata members with default-looking values survive pack / unpack (Some(false), empty strings)
     {
       for deact in [None, Some(false), Some(true)] {
